@@ -73,6 +73,12 @@ def build_doc(seed):
         w.execute(gen.next_op(w))
     d = w.containers["D1"]
     d.entity("ex:unicode", {"prov:label": NONASCII, "ex:note": prov.model.Literal(NONASCII, langtag="fr")})
+    if rng.random() < 0.12:
+        # a large state: outputs of tens of KiB full of multi-byte characters, so that any
+        # fixed-size chunking in a writer or reader splits some character
+        k = rng.choice([150, 400])
+        for i in range(k):
+            d.entity("ex:big%d" % i, {"prov:label": NONASCII * (1 + (i + seed) % 3) + "é" * ((i * 7 + seed) % 5)})
     for b in d.bundles:
         if not b.get_records():
             b.entity("ex:filler")
@@ -134,7 +140,15 @@ def run_state(seed, tier):
                     seams.reseed_uuid(seed)
                     s0 = d.serialize(format=fmt, **opts)
                 except Exception as e:
-                    stats["skipped_formats"][fmt] = type(e).__name__
+                    # the document cannot be written to a string; then no other destination
+                    # kind may succeed either (the kinds must agree in failure too)
+                    try:
+                        t = io.BytesIO()
+                        export(t)
+                        violate("destinations", "%s-string-raises-but-binary-stream-succeeds" % fmt,
+                                {"error": repr(e)[:300], "binary_bytes": len(t.getvalue())})
+                    except Exception:
+                        stats["skipped_formats"][fmt] = type(e).__name__
                     continue
                 cell("%s:dest:string" % fmt)
                 if not isinstance(s0, str):
@@ -142,22 +156,27 @@ def run_state(seed, tier):
                     continue
                 b0 = s0.encode("utf-8")
                 dests = {}
-                t = io.StringIO(); export(t); dests["StringIO"] = t.getvalue()
-                t = iosim.SimTextStream(); export(t); dests["SimTextStream"] = t.value()
-                t = io.BytesIO(); export(t); dests["BytesIO"] = t.getvalue()
-                t = iosim.SimBinaryStream(); export(t); dests["SimBinaryStream"] = t.value()
-                with open(os.path.join(sb.root, "t." + fmt), "w", encoding="utf-8") as f:
-                    export(f)
-                with iosim.real_open(os.path.join(sb.root, "t." + fmt), "rb") as f:
-                    dests["file-w"] = f.read().decode("utf-8")
-                with open(os.path.join(sb.root, "b." + fmt), "wb") as f:
-                    export(f)
-                with iosim.real_open(os.path.join(sb.root, "b." + fmt), "rb") as f:
-                    dests["file-wb"] = f.read()
                 pth = os.path.join(sb.root, "päth." + fmt)
-                export(pth)
-                with iosim.real_open(pth, "rb") as f:
-                    dests["path"] = f.read()
+                try:
+                    t = io.StringIO(); export(t); dests["StringIO"] = t.getvalue()
+                    t = iosim.SimTextStream(); export(t); dests["SimTextStream"] = t.value()
+                    t = io.BytesIO(); export(t); dests["BytesIO"] = t.getvalue()
+                    t = iosim.SimBinaryStream(); export(t); dests["SimBinaryStream"] = t.value()
+                    with open(os.path.join(sb.root, "t." + fmt), "w", encoding="utf-8") as f:
+                        export(f)
+                    with iosim.real_open(os.path.join(sb.root, "t." + fmt), "rb") as f:
+                        dests["file-w"] = f.read().decode("utf-8")
+                    with open(os.path.join(sb.root, "b." + fmt), "wb") as f:
+                        export(f)
+                    with iosim.real_open(os.path.join(sb.root, "b." + fmt), "rb") as f:
+                        dests["file-wb"] = f.read()
+                    export(pth)
+                    with iosim.real_open(pth, "rb") as f:
+                        dests["path"] = f.read()
+                except Exception as e:
+                    violate("destinations", "%s-destination-raises-though-string-succeeds" % fmt,
+                            {"error": repr(e)[:300], "done": sorted(dests)})
+                    continue
                 for kind, data in dests.items():
                     cell("%s:dest:%s" % (fmt, kind))
                     want_text = kind in ("StringIO", "SimTextStream", "file-w")
@@ -214,6 +233,13 @@ def run_state(seed, tier):
                                              lambda f: ProvDocument.deserialize(source=f, format=fmt)),
                     "file-r-utf8": lambda: _with(iosim.real_open(bpath, "r", encoding="utf-8"),
                                                  lambda f: ProvDocument.deserialize(source=f, format=fmt)),
+                    # file-like objects that are not io.IOBase instances
+                    "NamedTemporaryFile-rb": lambda: _with(_named_tmp(sb, file_bytes),
+                                                           lambda f: ProvDocument.deserialize(source=f, format=fmt)),
+                    "duck-typed-binary-reader": lambda: ProvDocument.deserialize(source=DuckReader(file_bytes), format=fmt),
+                    "read-auto:NamedTemporaryFile-rb": lambda: _with(_named_tmp(sb, file_bytes), lambda f: prov.read(f)),
+                    "read-auto:duck-typed-binary-reader": lambda: prov.read(DuckReader(file_bytes)),
+                    "read-fmt:duck-typed-binary-reader": lambda: prov.read(DuckReader(file_bytes), format=fmt),
                     # prov.read with an explicit format
                     "read-fmt:StringIO": lambda: prov.read(io.StringIO(file_text), format=fmt),
                     "read-fmt:BytesIO": lambda: prov.read(io.BytesIO(file_bytes), format=fmt),
@@ -256,6 +282,30 @@ def run_state(seed, tier):
     finally:
         sb.close()
     return stats
+
+
+class DuckReader(object):
+    """The least a caller may pass as a binary source: an object with read()."""
+
+    def __init__(self, data):
+        self._data = data
+        self._pos = 0
+
+    def read(self, n=-1):
+        if n is None or n < 0:
+            n = len(self._data) - self._pos
+        out = self._data[self._pos:self._pos + n]
+        self._pos += len(out)
+        return out
+
+
+def _named_tmp(sb, data):
+    import tempfile
+    f = tempfile.NamedTemporaryFile(mode="w+b", dir=sb.root)
+    f.write(data)
+    f.flush()
+    f.seek(0)
+    return f
 
 
 def _with(f, fn):
